@@ -363,6 +363,43 @@ static void macro_families()
   }
 }
 
+// "a log statement whose encoded size fits in the thread's current queue buffer performs no allocation": sizes from exactly
+// the free space of the (drained) buffer downwards, issued while the producer's cached reader position is stale (it last
+// looked before the backend consumed a large statement), so that the decision is taken by the re-check after reloading it
+static void fit_sweep()
+{
+  static constexpr MacroMetadata md{"c11.cpp:9", "fit", "{}", nullptr, LogLevel::Info, MacroMetadata::Event::Log};
+  auto* ctx = detail::get_local_thread_context<VfFrontendOptions>();
+  auto writer_pos = [ctx]() -> size_t
+  {
+    if constexpr (VfFrontendOptions::queue_type == QueueType::UnboundedBlocking || VfFrontendOptions::queue_type == QueueType::UnboundedDropping)
+      return static_cast<size_t>(ctx->get_spsc_queue_union().unbounded_spsc_queue._producer->bounded_queue._writer_pos);
+    else
+      return static_cast<size_t>(ctx->get_spsc_queue_union().bounded_spsc_queue._writer_pos);
+  };
+  size_t const cap = VfFrontend::get_thread_local_queue_capacity();
+  std::string const big(cap + 16, 'x');
+  drain();
+  size_t const w0 = writer_pos();
+  g_logger->template log_statement<false, false>(LogLevel::None, &md, std::string_view{big.data(), 100});
+  size_t const overhead = writer_pos() - w0 - 100; // encoded size of a string_view statement = overhead + length
+  drain();
+  for (size_t delta : {0u, 1u, 2u, 3u, 4u, 7u, 8u, 9u, 63u, 64u, 100u})
+  {
+    // a filler of 3/4 of the capacity, consumed by the backend: the producer still believes it is there
+    g_logger->template log_statement<false, false>(LogLevel::None, &md, std::string_view{big.data(), cap * 3 / 4 - overhead});
+    drain();
+    size_t const n = cap - delta;
+    bool ok = false;
+    measured("statement of exactly capacity - " + std::to_string(delta) + " bytes on the drained queue (stale reader cache)", true,
+             [&] { ok = g_logger->template log_statement<false, false>(LogLevel::None, &md, std::string_view{big.data(), n - overhead}); });
+    if (!ok) report("fitting-statement-refused", "capacity - " + std::to_string(delta), 0, 0);
+    if (VfFrontend::get_thread_local_queue_capacity() != cap)
+      report("queue-grown-for-a-fitting-statement", "capacity - " + std::to_string(delta) + ": " + std::to_string(cap) + " -> " + std::to_string(VfFrontend::get_thread_local_queue_capacity()), 0, 0);
+    drain();
+  }
+}
+
 int main()
 {
   g_caller_tid = vf_tid();
@@ -380,6 +417,7 @@ int main()
   {
     cstring_counts();
     macro_families();
+    fit_sweep();
   }
   g_stop.store(true);
   backend.join();
